@@ -82,7 +82,8 @@ Inductive fstmt : Type :=
 Record fobs : Type := FObs {
   fo_nilpath : bool;       (* a nil embedded pointer on the index sequence *)
   fo_omit : bool;          (* t.omitEmpty *)
-  fo_empty : bool;         (* isEmptyValue(v) *)
+  fo_empty : bool;         (* isEmptyValue of the FIELD value (v before getTagType) *)
+  fo_empty_after : bool;   (* isEmptyValue of what getTagType returns (pointers and interfaces followed) *)
   fo_tag : Z;              (* getTagType(v) *)
   fo_aslist : bool;        (* t.asList *)
   fo_longname : bool }.    (* writeTag refuses the name *)
@@ -90,19 +91,20 @@ Inductive fout : Type :=
 | FSkip                                        (* continue: nothing written for this field *)
 | FErr                                         (* the loop returns an error *)
 | FWrite (typ : Z) (overridden : bool).        (* header with typ written, then marshal(v, typ) *)
-Fixpoint run_field (sk : list fstmt) (o : fobs) (typ : Z) (ov : bool) : fout :=
+(* got: `typ, v := getTagType(v)` has been executed - from then on v is the unwrapped value *)
+Fixpoint run_field (sk : list fstmt) (o : fobs) (typ : Z) (ov got : bool) : fout :=
   match sk with
   | [] => FSkip
   | s :: r =>
       match s with
-      | FWalkIndex => if fo_nilpath o then FSkip else run_field r o typ ov
-      | FOmitEmpty => if fo_omit o && fo_empty o then FSkip else run_field r o typ ov
-      | FGetTag => run_field r o (fo_tag o) ov
-      | FEndErr t => if Z.eqb typ t then FErr else run_field r o typ ov
+      | FWalkIndex => if fo_nilpath o then FSkip else run_field r o typ ov got
+      | FOmitEmpty => if fo_omit o && (if got then fo_empty_after o else fo_empty o) then FSkip else run_field r o typ ov got
+      | FGetTag => run_field r o (fo_tag o) ov true
+      | FEndErr t => if Z.eqb typ t then FErr else run_field r o typ ov got
       | FListOption from to =>
-          if fo_aslist o then (if existsb (Z.eqb typ) from then run_field r o to true else FErr)
-          else run_field r o typ ov
-      | FWriteTag => if fo_longname o then FErr else run_field r o typ ov
+          if fo_aslist o then (if existsb (Z.eqb typ) from then run_field r o to true got else FErr)
+          else run_field r o typ ov got
+      | FWriteTag => if fo_longname o then FErr else run_field r o typ ov got
       | FMarshal => FWrite typ ov
       end
   end.
@@ -346,3 +348,25 @@ Definition run_dominant {A} (d : list dcond * dres * dres) (depth : A -> nat) (t
   | DFirst, f0 :: _ => Some f0
   | _, _ => None
   end.
+
+(* typeFields: the breadth-first collection *)
+Inductive idxmode : Type :=
+| IdxFreshCopy        (* index := make([]int, len(f.index)+1); copy(index, f.index); index[len(f.index)] = i *)
+| IdxAppendParent.    (* index := append(f.index, i): may write into the parent's backing array *)
+Inductive cstep : Type :=
+| CSwapLevels | CResetCounts | CVisitOnce
+| CField | CExportFilter | CTagGet | CSkipMark | CCutName | CIndex (m : idxmode) | CNameKey | CFollowPtr | COptions
+| CLegacyList | CRecordField | CCountNext | CQueueOnce.
+Definition index_mode (sk : list cstep) : option idxmode :=
+  match find (fun s => match s with CIndex _ => true | _ => false end) sk with
+  | Some (CIndex m) => Some m
+  | _ => None
+  end.
+
+(* writeValue, TagIntArray / TagLongArray: the element loop *)
+Inductive astep : Type :=
+| AUnwrapIface                                   (* for elem.Kind() == Interface { elem = elem.Elem() } *)
+| AWant (dflt : Z) (ifArr : Z) (thenWant : Z)    (* want := dflt; if tagType == ifArr { want = thenWant } *)
+| ACheckTag                                      (* !elem.IsValid() || getTagTypeByType(elem.Type()) != want: error *)
+| AValue (tbl : list (list rkind * wsrc))        (* v by kind: elem.Int() / int64(elem.Uint()) *)
+| AWrite (tbl : list (Z * Z)).                   (* per array tag: writeInt32(int32(v)) / writeInt64(v) *)
